@@ -15,7 +15,7 @@ import traceback
 sys.path.insert(0, os.path.dirname(os.path.abspath(__file__)))
 from common import MachineryError, Report, VERIF, fresh, validate_trace, NCPU  # noqa: E402
 
-HARNESS_ONLY = ("call", "feat", "expect", "site", "note")
+HARNESS_ONLY = ("call", "feat", "expect", "site", "note", "skip", "fname", "hashseed")
 
 
 def run_generators(pid, tier, seed, nproc, hashseeds, extra_env=None):
@@ -49,6 +49,11 @@ def judge(report, module, events, chunk=60000, timeout=1500, relevant=None):
     events carry harness-only fields: call (for replay), feat (non-triviality key), expect ('reject' for
     rejection self-tests), site (call site name used in violation keys).
     """
+    skipped = [e for e in events if e.get("skip")]
+    for e in skipped:
+        k = "events_not_judged:" + e["skip"]
+        report.extra[k] = report.extra.get(k, 0) + 1
+    events = [e for e in events if not e.get("skip")]
     for i, e in enumerate(events):
         e["tid"] = i
     nrej = 0
